@@ -247,7 +247,11 @@ def check_end_to_end(rep, tier, st):
                     tgt = m.group(1)[4:] if m.group(1).startswith('Call') and m.group(1)[4:] in c.funcs else m.group(1)
                     if tgt not in closure([f]): problems.append('%s contains `JSR %s` but %s is not reachable from %s in the published tree' % (f, m.group(1), tgt, f))
         # (3) in-use set == closure from main and the interrupt handlers
-        roots = ['main'] + [f for f in c.order if c.funcs[f]['interrupt']]
+        # handlers are taken from the source text (a definition qualified `interrupt`), not from the compiler's own flag
+        src_handlers = set(re.findall(r'void interrupt (\w+)\(', srcs[rid]))
+        for f in c.order:
+            if c.funcs[f]['interrupt'] != (f in src_handlers): problems.append('%s is %sdefined `interrupt` in the source but published with interrupt=%s' % (f, '' if f in src_handlers else 'not ', c.funcs[f]['interrupt']))
+        roots = ['main'] + sorted(src_handlers)
         want = closure(roots)
         if set(c.inuse) != want: problems.append('functions in use %s, reachable from main and interrupt handlers %s' % (sorted(c.inuse), sorted(want)))
         if problems:
